@@ -45,6 +45,7 @@ def run_histories(pid, tier, seed, n_hist, oracle_state, oracle_refine, oracle_s
     oracle_state, oracle_refine, oracle_single = guarded(oracle_state), guarded(oracle_refine), guarded(oracle_single)
     stats = {"histories": 0, "lines": 0, "passes": 0, "splits": 0, "merges": 0, "single_split": 0, "single_merge": 0,
              "single_swap": 0, "swap_noop": 0, "rebases": 0, "faces_max": 0, "threw": 0, "conforming_passes": 0, "canmerge_false": 0,
+             "merge_refinement_hyps_held": 0, "merge_refinement_hyps_not_met": 0, "merge_refinement_probe_desync": 0,
              "mesh_sizes": {}, "displacements": {}}
     failures = []
     disagreements = []
@@ -239,6 +240,11 @@ def run_histories(pid, tier, seed, n_hist, oracle_state, oracle_refine, oracle_s
             absbad.append({"line": d[0], "model": d[1][:200], "replay": list(S.trace)})
         stats["histories"] += 1
         stats["lines"] += S.n_lines
+        # executed collapses (single requests + inside refine passes) for which the model driver found the hypotheses of the
+        # refinement theorem C01.merge_refines satisfied / not satisfied (the latter is not a violation: the theorem does not apply)
+        stats["merge_refinement_hyps_held"] += S.mhyps_held
+        stats["merge_refinement_hyps_not_met"] += S.mhyps_not_met
+        stats["merge_refinement_probe_desync"] += S.mhyps_desync
         if len(samples) < 2:
             samples.append({"history": h, "faces": len(T), "requests": S.trace[:3] + ["…"] + [l for l in S.trace if not l.startswith(("n ", "t ", "pos", "mom", "typ"))][:25]})
         S.close()
